@@ -256,24 +256,28 @@ func MakeLeaf(style, k int) *Leaf {
 	if style == 1 {
 		form = k % 6
 	}
+	sfx := ""
+	if style == 1 {
+		sfx = OperandSuffix(k)
+	}
 	switch form {
 	case 1:
-		n := fmt.Sprintf("V%d", k)
+		n := fmt.Sprintf("V%d", k) + sfx
 		return &Leaf{Kind: machine.KVar, Name: n, Src: "var(" + n + ") == 1", Rel: machine.RelEQ, Const: 1}
 	case 2:
-		n := fmt.Sprintf("T%d", k)
+		n := fmt.Sprintf("T%d", k) + sfx
 		return &Leaf{Kind: machine.KTrainer, Name: n, Src: "defeated(" + n + ")", WantSet: true}
 	case 3:
-		n := fmt.Sprintf("F%d", k)
+		n := fmt.Sprintf("F%d", k) + sfx
 		return &Leaf{Kind: machine.KFlag, Name: n, Src: "!flag(" + n + ")", WantSet: false}
 	case 4:
-		n := fmt.Sprintf("V%d", k)
+		n := fmt.Sprintf("V%d", k) + sfx
 		return &Leaf{Kind: machine.KVar, Name: n, Src: "var(" + n + ") < 2", Rel: machine.RelLT, Const: 2}
 	case 5:
-		n := fmt.Sprintf("T%d", k)
+		n := fmt.Sprintf("T%d", k) + sfx
 		return &Leaf{Kind: machine.KTrainer, Name: n, Src: "!defeated(" + n + ")", WantSet: false}
 	}
-	n := fmt.Sprintf("F%d", k)
+	n := fmt.Sprintf("F%d", k) + sfx
 	return &Leaf{Kind: machine.KFlag, Name: n, Src: "flag(" + n + ")", WantSet: true}
 }
 
